@@ -25,7 +25,7 @@ RULE = ("generated file-based scenarios run through the real handlers (EventfulH
         "non-trivial = run with a pickup, drop-off, cancellation, charge and move, and two vehicles charging at one station in one step; distinct = sha1(case)")
 ASSUMPTIONS = ["a 'step' of the log is one flush of the reporter (block of station_load lines followed by that flush's events)",
                "all event types enabled in log_sim_config (the shipped default)", "PYTHONHASHSEED pinned to 0"]
-FLOORS = {"quick": {"log_lines": 14000, "flag:pickup": 28, "flag:charge": 30, "flag:two_charging_one_station": 5}, "thorough": {"log_lines": 2000000}}
+FLOORS = {"quick": {"log_lines": 14000, "flag:pickup": 28, "flag:charge": 30, "flag:two_charging_one_station": 5}, "thorough": {"log_lines": 500000}}
 
 PROFILE = profile(nv=(2, 6), n_requests=(10, 60), builtin=[True], n_scripted=[1], socs=[0.05, 0.1, 0.12, 0.3, 0.8, 0.97], prices_always=True,
                   mechs=["leaf_50", "leaf_50", "tiny_bev", "toyota_corolla", "tiny_ice"], max_plugs=2, timeouts=[120, 300, 600], fleets=[0, 0, 2])
